@@ -6,6 +6,7 @@ import os
 import random
 
 from vf import core, graph
+from . import _repl
 
 META = {
     'property_id': 'C01',
@@ -250,7 +251,13 @@ def run(rep, tier, seed, replay):
             trace = execute(chunk, d, timeout=2400)
             tr = judge(rep, chunk, trace)
         lines += tr['validated']
-    rep.cov['traces_validated_against_impl'] = len(behaviours)
+    # the replicated path end to end: a leader packs its log into replication responses (records of two sizes,
+    # so that responses are cut at different places), followers append what they receive; the offsets every
+    # replica stores must be the consecutive run 0, 1, 2, ... (replica kit and Replication.tla of C02)
+    b3, l3 = _repl.sizes_stage(rep, tier, seed, rng, 'C01', {'C01_ReplicaGapFree'}, quick_n=25)
+    rep.cov['replicated_path_behaviours'] = len(b3)
+    lines += l3
+    rep.cov['traces_validated_against_impl'] = len(behaviours) + len(b3)
     rep.cov['trace_lines_validated'] = lines
     rep.cov['evaluations'] = len(behaviours)
     rep.cov['distinct_nontrivial'] = len({core.sha(b['steps']) for b in behaviours if nontrivial(b)})
